@@ -369,6 +369,11 @@ func runC06(c *Ctx) {
 		return res
 	}
 
+	// (dangling) string operands whose symbol index is declared by no table — a value the
+	// engine can be handed by any caller of the datalog package; operators must answer with
+	// a value or an error (the placeholder name), never panic. Implementation only: the
+	// model has no notion of an index without a string.
+	danglingOperands(c)
 	// (product) unary
 	for _, u := range unOps {
 		for _, v := range pool {
@@ -539,4 +544,43 @@ func bucket(n int) int {
 		return 100
 	}
 	return 1000
+}
+
+// danglingOperands: every operator applied to datalog.String values with indexes outside
+// the symbol table (just past the table, 2^32, 2^63-1, 2^63, 2^63+1024, 2^64-1), alone, against
+// a proper string, inside a set, and printed.
+func danglingOperands(c *Ctx) {
+	syms := &datalog.SymbolTable{}
+	proper := syms.Insert("proper")
+	idx := []uint64{uint64(datalog.OFFSET) + 1, 1 << 32, 1<<63 - 1, 1 << 63, 1<<63 + 1024, 1<<64 - 1, 29}
+	bins := []datalog.BinaryOpFunc{datalog.Equal{}, datalog.Contains{}, datalog.Prefix{}, datalog.Suffix{}, datalog.Regex{}, datalog.Add{}, datalog.LessThan{}, datalog.Intersection{}, datalog.Union{}}
+	uns := []datalog.UnaryOpFunc{datalog.Length{}, datalog.Negate{}, datalog.Parens{}}
+	try := func(what string, f func()) {
+		defer func() {
+			if r := recover(); r != nil {
+				c.Violate("C06/panic:dangling-index:"+what, "an operator panicked on a string operand whose index no table declares: "+panicSite(r), map[string]interface{}{"what": what})
+			}
+		}()
+		c.Eval()
+		f()
+	}
+	for _, i := range idx {
+		d := datalog.String(i)
+		for _, b := range bins {
+			for _, pair := range [][2]datalog.Term{{d, proper}, {proper, d}, {d, d}, {datalog.Set{d, proper}, d}, {datalog.Set{d}, datalog.Set{proper, d}}} {
+				e := datalog.Expression{datalog.Value{ID: pair[0]}, datalog.Value{ID: pair[1]}, datalog.BinaryOp{BinaryOpFunc: b}}
+				try(fmt.Sprintf("binary-%d", b.Type()), func() { e.Evaluate(nil, syms); e.Print(syms) })
+			}
+		}
+		for _, u := range uns {
+			e := datalog.Expression{datalog.Value{ID: d}, datalog.UnaryOp{UnaryOpFunc: u}}
+			try(fmt.Sprintf("unary-%d", u.Type()), func() { e.Evaluate(nil, syms); e.Print(syms) })
+		}
+		try("str", func() { _ = syms.Str(d) })
+		try("print-fact", func() {
+			dbg := datalog.SymbolDebugger{SymbolTable: syms}
+			_ = dbg.Predicate(datalog.Predicate{Name: d, Terms: []datalog.Term{d, datalog.Set{d}}})
+		})
+		c.Count("dangling-index-operands")
+	}
 }
